@@ -52,7 +52,7 @@ Definition row_obs (r : csvrow) : sx :=
               | [] => []
               | head :: rest =>
                   (* Multi and Composite selectors order their members themselves *)
-                  if str_eqb (nth 0 head []) (str_of_kind KDirectional) then head :: rest
+                  if str_eqb (nth 0 head []) (kind_str KDirectional) then head :: rest
                   else head :: sort_members rest
               end in
   L [of_str (c_id r); of_str (c_data r); of_str (c_set r); L (map sx_of_member body)].
@@ -63,7 +63,7 @@ Definition spec_row (s : store) (h : nat) (a : ann) : option csvrow :=
   | Some r, Some ms =>
       if Nat.eqb (a_kind a) 0 then Some r
       else Some {| c_id := c_id r; c_data := c_data r; c_set := c_set r;
-                   c_kind := column_spec (str_of_kind (complex_kind (a_kind a))) (map (fun m => str_of_kind (m_kind m)) ms);
+                   c_kind := column_spec (kind_str (complex_kind (a_kind a))) (map (fun m => kind_str (m_kind m)) ms);
                    c_res := column_spec [] (map m_res ms); c_ann := column_spec [] (map m_ann ms);
                    c_dset := column_spec [] (map m_dset ms); c_begin := column_spec [] (map m_begin ms);
                    c_end := column_spec [] (map m_end ms); c_key := column_spec [] (map m_key ms);
